@@ -244,7 +244,7 @@ theorem C11_relative_under_source_dir_false : ¬ C11_relative_under_source_dir_s
   intro h
   have hw : resolveKey { sourceDir := some [47, 115]
                          mapping := some [([97, 46, 99], [102, 111, 111, 92, 98, 97, 114, 46, 99])] }
-      ⟨[], [], []⟩ [97, 46, 99]
+      { files := [], dirs := [], cwd := [] } [97, 46, 99]
       = .ok (some ([47, 115, 47, 102, 111, 111, 92, 98, 97, 114, 46, 99],
                    [102, 111, 111, 47, 98, 97, 114, 46, 99])) := by decide
   have := h _ _ _ [[115]] _ _ (by decide) rfl hw (by decide)
@@ -271,7 +271,7 @@ theorem C11_relative_under_source_dir_partial (cfg : Cfg) (fs : FS) (key : Bytes
 
 /-- the former witness: source dir `/s`, nothing on disk, key `/x/../s/a.c` is now reported as
 (`/s/a.c`, `a.c`) -/
-example : resolveKey { sourceDir := some [47, 115] } ⟨[], [], []⟩
+example : resolveKey { sourceDir := some [47, 115] } { files := [], dirs := [], cwd := [] }
     [47, 120, 47, 46, 46, 47, 115, 47, 97, 46, 99]
     = .ok (some ([47, 115, 47, 97, 46, 99], [97, 46, 99])) := by decide
 
@@ -342,10 +342,10 @@ example : NormalForm [102, 111, 111, 47, 98, 97, 114, 46, 99] :=
 /-- the former witness of C11-mapping-backslash: the mapping `{"a.c": "x\..\y.c"}` now reports
 key `a.c` as `y.c`; with one more `..` (`x\..\..\y.c`) the path escapes and the key is dropped -/
 example : rewriteKey { mapping := some [([97, 46, 99], [120, 92, 46, 46, 92, 121, 46, 99])] }
-      ⟨[], [], []⟩ ([97, 46, 99], {})
+      { files := [], dirs := [], cwd := [] } ([97, 46, 99], {})
     = .ok (some ⟨[120, 92, 46, 46, 92, 121, 46, 99], [121, 46, 99], {}⟩) := by decide
 
 example : rewriteKey { mapping := some [([97, 46, 99], [120, 92, 46, 46, 92, 46, 46, 92, 121, 46, 99])] }
-      ⟨[], [], []⟩ ([97, 46, 99], {}) = .ok none := by decide
+      { files := [], dirs := [], cwd := [] } ([97, 46, 99], {}) = .ok none := by decide
 
 end Grcov.Props.C11
